@@ -125,6 +125,9 @@ theorem encodeTo_ref : ∀ (ty : Ty) (v : Val), wf ty v = true → encodeTo ty v
   | .box sz t, v, h => by
     simp only [wf] at h
     simp [encodeTo, Spec.encode, encodeTo_ref t v h]
+  | .wrap t, v, h => by
+    simp only [wf] at h
+    simp [encodeTo, Spec.encode, encodeTo_ref t v h]
   | .duration, v, h => by
     obtain ⟨s, n, rfl, _, _⟩ := wf_duration h
     simp [encodeTo, Spec.encode]
